@@ -193,18 +193,37 @@ func (c *Ctx) goClose(rule string, launcher *ast.BlockStmt, ltype *ast.FuncType,
 	info := pkg.TypesInfo
 	// channels made here
 	chans := map[types.Object]token.Pos{}
-	ast.Inspect(launcher, func(n ast.Node) bool {
-		as, ok := n.(*ast.AssignStmt)
-		if !ok || len(as.Lhs) != len(as.Rhs) {
-			return true
+	isMakeChan := func(r ast.Expr) bool {
+		if call, ok := unparen(r).(*ast.CallExpr); ok {
+			if id, ok := call.Fun.(*ast.Ident); ok && id.Name == "make" && len(call.Args) >= 1 {
+				if _, isChan := info.TypeOf(call.Args[0]).Underlying().(*types.Chan); isChan {
+					return true
+				}
+			}
 		}
-		for i, r := range as.Rhs {
-			if call, ok := unparen(r).(*ast.CallExpr); ok {
-				if id, ok := call.Fun.(*ast.Ident); ok && id.Name == "make" && len(call.Args) >= 1 {
-					if _, isChan := info.TypeOf(call.Args[0]).Underlying().(*types.Chan); isChan {
-						if o := identObj(info, as.Lhs[i]); o != nil {
-							chans[o] = as.Pos()
-						}
+		return false
+	}
+	ast.Inspect(launcher, func(n ast.Node) bool {
+		switch as := n.(type) {
+		case *ast.AssignStmt:
+			if len(as.Lhs) != len(as.Rhs) {
+				return true
+			}
+			for i, r := range as.Rhs {
+				if isMakeChan(r) {
+					if o := identObj(info, as.Lhs[i]); o != nil {
+						chans[o] = as.Pos()
+					}
+				}
+			}
+		case *ast.ValueSpec: // var ch chan T = make(chan T, n)
+			if len(as.Names) != len(as.Values) {
+				return true
+			}
+			for i, r := range as.Values {
+				if isMakeChan(r) {
+					if o := info.Defs[as.Names[i]]; o != nil {
+						chans[o] = as.Pos()
 					}
 				}
 			}
